@@ -128,6 +128,10 @@ def show_expr(e):
         return 'TOP<%s>' % e[1]
     if k == 'tuple':
         return '(' + ', '.join(show_expr(x) for x in e[1]) + ')'
+    if k == 'when':
+        sym = {'Lt': '<', 'Le': '<=', 'Gt': '>', 'Ge': '>=', 'Eq': '==', 'Ne': '!='}
+        cs = ' & '.join(('' if v else '!') + '(%s %s %s)' % (show_expr(c[2]), sym.get(c[1], c[1]), show_expr(c[3])) for c, v in e[1])
+        return '[%s if %s]' % (show_expr(e[2]), cs)
     return repr(e)
 
 
@@ -188,10 +192,11 @@ FRESH_EMPTY = {'std::vec::Vec::<T>::with_capacity', 'std::vec::Vec::<T>::new'}
 
 
 class ElemEngine:
-    def __init__(self, prog, ints=False):
+    def __init__(self, prog, ints=False, guarded=False):
         self.prog = prog
         self.pdb = prog.pdb
         self.ints = ints          # keep integer arithmetic / integer fields symbolic (formula extraction) instead of the opaque INT
+        self.guarded = guarded    # alternatives of several return sites carry the comparisons that select them: ('when', conds, e)
         self._memo = {}
         self._stack = []
         self._supp = ()
@@ -223,12 +228,40 @@ class ElemEngine:
         self.visited.add(f.body.key)
         vals = f.return_values()
         out = None
+        defs = f._defs.get(0, []) if self.guarded else []
+        if len(defs) > 1 and len(defs) == len(vals):
+            # piecewise value: each return site's alternatives are tagged with the comparisons that dominate the site
+            for d in defs:
+                t = f.rvalue_term(d[3], d[1]) if d[0] == 'assign' else f.call_term(d[2], d[1])
+                av = self.ev(env, t)
+                conds = self._guard_exprs(env, d[1])
+                if conds and not is_tuple(av):
+                    av = frozenset(e if (isinstance(e, tuple) and e and e[0] == 'top') else ('when', conds, e) for e in flat(av))
+                out = av if out is None else join(out, av)
+            return out if out is not None else frozenset()
         for v in vals:
             av = self.ev(env, v)
             out = av if out is None else join(out, av)
         if out is None:
             return frozenset()
         return out
+
+    def _guard_exprs(self, env, bb):
+        """the comparisons dominating bb whose operands have one closed form each: tuple of (('cmp', op, a, b), truth)"""
+        out = []
+        for c, v in env.f.guards().get(bb, []):
+            while tag(c) == 'un' and c[1] == 'Not' and isinstance(v, bool):
+                c, v = c[2], not v
+            if tag(c) != 'bin' or c[1] not in ('Lt', 'Le', 'Gt', 'Ge', 'Eq', 'Ne') or not isinstance(v, bool):
+                continue
+            a, b = self.ev(env, c[2]), self.ev(env, c[3])
+            if is_tuple(a) or is_tuple(b) or len(a) != 1 or len(b) != 1 or has_top(a) or has_top(b):
+                continue
+            a0, b0 = next(iter(a)), next(iter(b))
+            if a0 == INT or b0 == INT or _expr_has(a0, 'red') or _expr_has(b0, 'red') or _expr_has(a0, 'when') or _expr_has(b0, 'when'):
+                continue
+            out.append((('cmp', c[1], a0, b0), v))
+        return tuple(out)
 
     def ev(self, env, t):
         key = (env.key(), t)
